@@ -178,7 +178,7 @@ inst("conv3x3s2", "c")(lambda n: _conv_like(n, "conv", 3, 2, PAD_SAME, "RELU"))
 inst("conv3x3v_relu6", "c")(lambda n: _conv_like(n, "conv", 3, 1, PAD_VALID, "RELU6", cout=16))
 inst("conv3x3d2")(lambda n: _conv_like(n, "conv", 3, 1, PAD_SAME, "NONE", dil=2))
 @inst("conv_again")
-def _conv_again(net):
+def _conv_again(net, dil=None):
     """a second convolution that shares the weight tensor of the most recent convolution but has its own bias
     (the compiler then keeps one encoded weight tensor and a separate scale/bias tensor for the second operator)"""
     x = net.cur
@@ -194,6 +194,8 @@ def _conv_again(net):
     if wshape[3] != t["shape"][3] or net.T(o["inputs"][0])["dtype"] != t["dtype"]:
         return False
     opts = dict(o["opts"][1])
+    if dil is not None:
+        opts["DilationHFactor"] = opts["DilationWFactor"] = dil
     n, h, w, c = t["shape"]
     k = wshape[1]
     dil = opts["DilationHFactor"]
@@ -219,6 +221,20 @@ def _conv_pair_shared(net):
     return _conv_again(net)
 
 
+def _conv_pair_shared_dil(net, d1, d2):
+    """two 3x3 convolutions sharing one weight tensor, with dilations d1 and d2 (> 2 means the compiler rewrites the kernel)"""
+    if not _hw4(net) or net.T(net.cur)["shape"][3] > 64:
+        return False
+    c = net.T(net.cur)["shape"][3]
+    if not _conv_like(net, "conv", 3, 1, PAD_SAME, "NONE", cout=c, dil=d1):
+        return False
+    return _conv_again(net, dil=d2)
+
+
+inst("conv3x3d3", "t")(lambda n: _conv_like(n, "conv", 3, 1, PAD_SAME, "NONE", dil=3))
+inst("conv3x3d4x3", "t")(lambda n: _conv_like(n, "conv", 3, 1, PAD_SAME, "NONE", dil=(4, 3)))
+inst("conv_pair_shared_d3", "t")(lambda n: _conv_pair_shared_dil(n, 3, 3))
+inst("conv_pair_shared_d3d1", "t")(lambda n: _conv_pair_shared_dil(n, 3, 1))
 inst("conv3x3_c72_pc", "t")(lambda n: _conv_like(n, "conv", 3, 1, PAD_SAME, "NONE", cout=72, per_channel=True))
 inst("conv1x1_c40", "t")(lambda n: _conv_like(n, "conv", 1, 1, PAD_SAME, "RELU", cout=40))
 inst("conv3x3_c1")(lambda n: _conv_like(n, "conv", 3, 1, PAD_SAME, "NONE", cout=1))
@@ -446,6 +462,19 @@ def _split(net):
     y0 = net.act(h, t["dtype"], q=(net.scale(x), net.zp(x)))
     y1 = net.act(h, t["dtype"], q=(net.scale(x), net.zp(x)))
     net.op("SPLIT", [ax, x], [y0, y1], ("SplitOptions", dict(NumSplits=2)))
+    return True
+
+
+@inst("split1", "t")
+def _split1(net):
+    """SPLIT into one part: a no-op the compiler removes"""
+    x = net.cur
+    t = net.T(x)
+    if not _hw4(net):
+        return False
+    ax = net.const([], "int32", "data", values=3)
+    y0 = net.act(list(t["shape"]), t["dtype"], q=(net.scale(x), net.zp(x)))
+    net.op("SPLIT", [ax, x], [y0], ("SplitOptions", dict(NumSplits=1)))
     return True
 
 
